@@ -877,8 +877,9 @@ def check_witness_guards(ctx, rule):
         if filters:
             for f in filters:
                 cb, rets = closure_ret(F, f)
-                if rets and len(rets) == 1 and is_call(rets[0], 'AffFuncBase::contains') and rets[0][2][1][0] == 'param':
-                    poly = rets[0][2][0]
+                ct = containment_test(F, rets[0]) if rets and len(rets) == 1 else None
+                if ct is not None and ct[1][0] == 'param':
+                    poly = ct[0]
                     why = 'points kept by filter(|p| %s.contains(p))' % fmt(poly)
                     site += ':filter'
         # (b) dominated by true(P.contains(x)) with x the stored point
@@ -1546,3 +1547,26 @@ def length_fact(F, lit):
     if ec is None:
         return None
     return ec[0], ec[1], rhs, coll
+
+
+def containment_test(F, e):
+    """(polytope, point) if the boolean expression e is the library's containment test of `point` in `polytope`:
+         polytope.contains(point)      or its definition      polytope.distance_raw(point).iter().all(|d| *d >= -c)   with 0 <= c <= 1e-8
+    (Polytope::contains is exactly the latter with c = 1e-8, decided under C14.R1), else None."""
+    from ..mir import strip_sites as s_
+    if is_call(e, 'AffFuncBase::contains') and len(e[2]) == 2:
+        return e[2][0], e[2][1]
+    if is_call(e, 'Iterator::all') and len(e[2]) == 2 and e[2][1][0] == 'closure':
+        src = e[2][0]
+        while is_call(src, 'ArrayBase::iter', 'IntoIterator::into_iter') and src[2]:
+            src = src[2][0]
+        if not (is_call(src, 'AffFuncBase::distance_raw') and len(src[2]) == 2):
+            return None
+        cb, rets = closure_ret(F, e[2][1])
+        if cb is None or not rets or len(rets) != 1:
+            return None
+        r = s_(rets[0])
+        prm = ('param', cb.arg_names()[-1])
+        if r[0] == 'bin' and r[1] == 'Ge' and r[2] == prm and r[3][0] == 'const' and isinstance(r[3][1], (int, float)) and -1e-8 <= r[3][1] <= 0:
+            return src[2][0], src[2][1]
+    return None
